@@ -1,7 +1,8 @@
 """Registry of properties -> harness modules, and of model check functions."""
 import importlib
 
-PROPS = ["C19"]
+import os, glob
+PROPS = sorted(os.path.basename(f)[:-3] for f in glob.glob(os.path.join(os.path.dirname(__file__), "props", "C[0-9][0-9].py")))
 
 def module(pid):
     return importlib.import_module("harness.props." + pid)
